@@ -4,6 +4,7 @@ import (
 	"context"
 	"os"
 	"strings"
+	"verif/enum/cyq"
 
 	"github.com/specterops/dawgs/cypher/models/cypher"
 	"github.com/specterops/dawgs/cypher/models/pgsql/optimize"
@@ -35,11 +36,17 @@ func AllQueries(tier string, k int) []Query {
 			}
 		}
 	}
+	var flow []Query
+	for _, q := range cyq.Dataflow(cyq.Options{}) {
+		flow = append(flow, Query{Text: q.Text, Params: DefaultParams, Source: "dataflow", Features: q.Features})
+	}
 	if tier == "thorough" {
+		add(flow, 1, 4, 3000)
 		add(PatternFamily(3), 1, 4, 3000)
 		add(TailFamily(), 1, 4, 3000)
 		add(CorpusQueries(true), 0, 3, 2000)
 	} else {
+		add(flow, 1, 3, 400)
 		add(PatternFamily(3), 1, 3, 400)
 		add(TailFamily(), 1, 3, 400)
 		add(CorpusQueries(true), 1, 3, 200)
